@@ -133,7 +133,11 @@ def run(ctx):
         n_single, n_find = 1500, 1800
     else:
         n_single, n_find = 4000, 5000
-    ctx.hyp("map", S.find, n_find)
-    ctx.hyp("map", S.single, n_single)
+    from hypothesis import strategies as st
+
+    # half of the scripts stay inside the documented handler contract (every response is predicted), the other half
+    # may contain anything from the grammar (the prediction stops at the first undocumented behaviour)
+    ctx.hyp("map", st.one_of(S.find_raw(True), S.find_raw(False)), n_find)
+    ctx.hyp("map", st.one_of(S.single_raw(True), S.single_raw(False), S.single_raw(False)), n_single)
     ctx.hyp("map", S.find_one("find-rpi"), n_find // 6)
     ctx.extra["services_in_scope"] = len([k for k, v in G.SERVICES.items() if v[0] not in ("C-GET", "C-MOVE")])
